@@ -88,10 +88,41 @@ func runC07(c *Ctx, phase string) {
 	c.Floor("lists_with_3plus_near_duplicates", 300)
 	c.Floor("lists_with_9plus_entries", 1000)
 	c.Floor("lists_with_33plus_entries", 200)
+	c.Floor("long_list_cases", 300)
 	for _, k := range []string{"permute", "reverse-sorted", "duplicate", "respell", "extend"} {
 		c.Floor("variant_"+k, int64(n/2))
 	}
 	u := c.U
+	// long lists (256..700 entries): implementations batch / index / parallelise above size thresholds
+	nBig := c.Pick(400, 4000)
+	for i := 0; i < nBig; i++ {
+		if !c.Mine(i) {
+			continue
+		}
+		bc := genBigCase(c, "C07", 2*i+1) // odd indices are the long-list mode
+		r := gen.NewRand(c.Seed, 0xC07B, uint64(i))
+		base := termTexts(bc.Allowed)
+		e := bc.Text
+		mk := func(kind string, variant []string) {
+			judgeC07(c, C07Case{Expr: e, Base: ev.QSs(base), Variant: ev.QSs(variant), Kind: kind})
+			c.Distinct(gen.HashStr(string(e), kind, strings.Join(variant, "\x00")))
+		}
+		rev := make([]string, len(base))
+		for j := range base {
+			rev[j] = base[len(base)-1-j]
+		}
+		mk("permute", rev)
+		rot := append(append([]string{}, base[len(base)/3:]...), base[:len(base)/3]...)
+		mk("permute", rot)
+		dup := append(append([]string{}, base...), base[r.Intn(len(base))], base[0], base[len(base)-1])
+		mk("duplicate", dup)
+		ext := append([]string{u.RandomTerm(r).Text(), u.RandomTerm(r).Text()}, base...)
+		mk("extend", ext)
+		ext2 := append(append([]string{}, base...), termTexts(bc.Terms)...)
+		mk("extend", ext2)
+		c.Inc("long_list_cases")
+		c.Max("longest_list", int64(len(base)))
+	}
 	for i := 0; i < n; i++ {
 		if !c.Mine(i) {
 			continue
